@@ -86,7 +86,7 @@ fn c16_epoch_millis() {
 
 //@ id: A-1us
 //@ tier: thorough
-//@ cap: 3000
+//@ cap: 1200
 //@ optional: true
 //@ desc: 15-16 digit integer epochs (microseconds) map to floor(n / 10^6)
 //@ functions: TimeParser::normalize_integer_epoch, num_digits_u128
@@ -101,7 +101,7 @@ fn c16_epoch_micros() {
 
 //@ id: A-1ns
 //@ tier: thorough
-//@ cap: 3000
+//@ cap: 1200
 //@ optional: true
 //@ desc: 17-19 digit integer epochs (nanoseconds) map to floor(n / 10^9)
 //@ functions: TimeParser::normalize_integer_epoch, num_digits_u128
